@@ -8,7 +8,7 @@ using namespace vf;
 namespace fs = std::filesystem;
 
 struct Case { double dt, s_over_dt, t_over_s; int pop; int in_memory; };     // pop: 0 steady, 1 division at iteration 5, 2 one removal at iteration 3, 3 extinction at iteration 7, 4 division then removal
-static const char* pop_name[] = {"steady", "division", "one_removed", "all_removed", "division_then_removal", "static_neighbour_remeshed_in_the_first_iteration"};
+static const char* pop_name[] = {"steady", "division", "one_removed", "all_removed", "division_then_removal", "static_neighbour_remeshed_in_the_first_iteration", "only_a_static_cell_left_after_a_removal"};
 static std::string case_json(const Case& c) { return "{\"dt\":" + jnum(c.dt) + ",\"S/dt\":" + jnum(c.s_over_dt) + ",\"T/S\":" + jnum(c.t_over_s) + ",\"population\":\"" + pop_name[c.pop] + "\",\"statistics\":\"" + (c.in_memory ? "in-memory" : "file") + "\"}"; }
 static std::string case_text(const Case& c) { return dhex(c.dt) + " " + dhex(c.s_over_dt) + " " + dhex(c.t_over_s) + " " + std::to_string(c.pop) + " " + std::to_string(c.in_memory); }
 static Case case_parse(const std::string& s) { std::istringstream i(s); std::string a, b, c; Case k; i >> a >> b >> c >> k.pop >> k.in_memory; k.dt = strtod(a.c_str(), 0); k.s_over_dt = strtod(b.c_str(), 0); k.t_over_s = strtod(c.c_str(), 0); return k; }
@@ -20,10 +20,11 @@ struct StatRow { unsigned iteration; std::string id, type, area, volume, target_
 static std::vector<std::string> split(const std::string& s, char sep) { std::vector<std::string> o; std::string cur; for (char ch : s) { if (ch == sep) { o.push_back(cur); cur.clear(); } else cur += ch; } o.push_back(cur); return o; }
 
 static long g_static_with_free_slots_at_save = 0;
+struct StopRun {};
 static std::string run_case(const Case& cs, long* iterations_out = nullptr, long* files_out = nullptr, long* rows_out = nullptr) {
     const double S = cs.s_over_dt * cs.dt, T = cs.t_over_s * S; char buf[400];
     sc::Mesh ico = sc::icosphere(1); std::vector<sw::CellSpec> cells;
-    for (int i = 0; i < 2; i++) { auto ty = sc::make_cell_type(i == 0 ? 0 : 2, 3); ty->bulk_modulus_ = 1e-9; ty->mass_density_ = 1e6; for (auto& f : ty->face_types_) { f.surface_tension_ = 0; f.bending_modulus_ = 0; } ty->min_vol_ = 0; cells.push_back({sc::translated(ico, 3.0 * i, 0, 0), ty}); }
+    for (int i = 0; i < 2; i++) { auto ty = sc::make_cell_type(i == 0 ? 0 : (cs.pop == 6 ? 1 /* an ECM cell: once the epithelial cell is gone no cell of the population can move */ : 2), 3); ty->bulk_modulus_ = 1e-9; ty->mass_density_ = 1e6; for (auto& f : ty->face_types_) { f.surface_tension_ = 0; f.bending_modulus_ = 0; } ty->min_vol_ = 0; cells.push_back({sc::translated(ico, 3.0 * i, 0, 0), ty}); }
     if (cs.pop == 5) { // a static (ECM) neighbour whose input mesh has edges shorter than l_min: the refiner collapses them in iteration 0 and the cell carries free slots from then on
         auto ty = sc::make_cell_type(1, 1); ty->mass_density_ = 1e6; ty->min_vol_ = 0; sc::Mesh m = sc::translated(sc::scaled(ico, 0.5, 0.5, 0.5), 0, 3.0, 0);   /* edges of 0.27-0.31 against l_min = 0.3 */ cells.push_back({m, ty}); }
     std::string out = sw::scratch_root() + "/c19";
@@ -35,15 +36,15 @@ static std::string run_case(const Case& cs, long* iterations_out = nullptr, long
             if (!strcmp(ph, "begin")) { unsigned it = s->iteration_; auto& L = s->cell_lst_;
                 auto vanish = [&](cell& c) { double v = c.compute_volume(); c.cell_type_ = std::make_shared<cell_type_parameters>(*c.cell_type_); c.cell_type_->min_vol_ = 0.6 * v; sw::scale_cell(c, 0.8); };
                 if ((cs.pop == 1 || cs.pop == 4) && it == 5 && !L.empty()) L[0]->division_volume_ = 0.9 * L[0]->compute_volume();
-                if (cs.pop == 2 && it == 3 && !L.empty()) vanish(*L[0]);
+                if ((cs.pop == 2 || cs.pop == 6) && it == 3 && !L.empty()) vanish(*L[0]);
                 if (cs.pop == 3 && it == 7) for (auto& c : L) vanish(*c);
                 if (cs.pop == 4 && it == 12 && L.size() > 1) vanish(*L[1]);
                 if (it == 6) for (auto& c : L) c->division_volume_ = std::numeric_limits<double>::infinity(); }
             else if (!strcmp(ph, "save")) { SaveRec r; r.file_number = s->file_number_; for (auto& c : s->cell_lst_) { r.ids.push_back(c->get_id()); r.nodes.push_back(c->get_nb_of_nodes()); r.faces.push_back(c->get_nb_of_faces()); r.types.push_back(c->get_cell_type()->global_type_id_); if (c->is_static() && c->get_nb_of_nodes() < c->get_node_lst().size()) g_static_with_free_slots_at_save++; } saves.push_back(r); }
             else if (!strcmp(ph, "stats") || !strcmp(ph, "final_stats")) { bool recorded = !strcmp(ph, "final_stats") || s->iteration_ % 50 == 0; if (recorded) for (auto& c : s->cell_lst_) { StatRow r; r.iteration = s->iteration_; r.id = format_number(c->get_id(), "%d"); r.type = format_number((int)c->get_cell_type()->global_type_id_, "%d"); r.area = format_number(c->get_area(), "%.3e"); r.volume = format_number(c->get_volume(), "%.3e"); r.target_volume = format_number(c->get_target_volume(), "%.3e"); r.pressure = format_number(c->get_pressure(), "%.3e"); stats.push_back(r); } }
-            else if (!strcmp(ph, "end")) { iterations++; expected_time += cs.dt; double t = s->time_integrator_ptr_->get_simulation_time(); if (t != expected_time && err.empty()) { char b[200]; snprintf(b, sizeof b, "simulated-time-is-not-the-sum-of-the-time-steps: after %ld iterations %.17g expected %.17g", iterations, t, expected_time); err = b; } }
+            else if (!strcmp(ph, "end")) { iterations++; expected_time += cs.dt; double t = s->time_integrator_ptr_->get_simulation_time(); if (t != expected_time && err.empty()) { char b[200]; snprintf(b, sizeof b, "simulated-time-is-not-the-sum-of-the-time-steps: after %ld iterations %.17g expected %.17g", iterations, t, expected_time); err = b; } if (!err.empty()) throw StopRun();   /* a clock that does not advance never reaches T */ }
         };
-        W.s->run();
+        try { W.s->run(); } catch (StopRun&) {}
         if (cs.in_memory) stat_text = W.s->get_simulation_statistics();
         // the loop must stop exactly when the accumulated time reaches T (or the population is empty)
         if (err.empty()) { double t = 0; long n = 0; while (t < T) { t += cs.dt; n++; } bool extinct = W.cells().empty();
@@ -96,7 +97,7 @@ static void explore(Result& R) {
     const bool th = R.args.thorough(); long cases = 0, iters = 0, files = 0, rows = 0, unit = 0;
     std::vector<double> dts = {0.1, 0.01, 0.3, 0.7, 1e-3, 1e-7, 1e-11, 0.125};   /* incl. a step far below the absolute tolerances in the code, and a binary-exact step (accumulated time lands exactly on the duration) */ std::vector<double> sdt = {1, 1.5, 2, 7.0 / 3.0, 3, 10}; std::vector<double> ts = {0.5, 1, 2.5, 3, 5, 7};   /* 10 x 5: a run of exactly 50 iterations (the statistics cadence) */
     if (th) { sdt.push_back(25); ts.push_back(10); dts.push_back(0.07); }
-    for (double dt : dts) for (double a : sdt) for (double b : ts) for (int pop = 0; pop < 6; pop++) for (int mem = 0; mem < 2; mem++) {
+    for (double dt : dts) for (double a : sdt) for (double b : ts) for (int pop = 0; pop < 7; pop++) for (int mem = 0; mem < 2; mem++) {
         if (!th && mem == 1 && pop != 0 && pop != 3) continue;
         if (!R.args.mine(unit++)) continue;
         if (R.out_of_time(0.9)) { R.cap("deadline"); goto done; }
